@@ -1,7 +1,10 @@
 """C03 - labelled outputs name every number correctly (Dataset and
 DataFrame)."""
 import itertools
+import functools
 import collections
+
+import numpy as np
 
 from hypothesis import strategies as st
 
@@ -350,7 +353,93 @@ def strategy(draw):
     return case
 
 
+# ----------------------- internal coordinates that depend on the arguments
+
+def shifted_fn(_xv=None, **kw):
+    """Returns a Dataset / DataArray over an internal dimension ``freq``
+    whose LABELS depend on the argument ``n`` (freq = start(n) + 0..L-1);
+    the value at label f is a function of (kw, f) only."""
+    import xarray as xr
+    ret, L, step = _xv
+    models.LOG.append(dict(kw))
+    labels = [step * int(kw["n"]) + i for i in range(L)]
+    vals = np.array([shifted_value(kw, f) for f in labels])
+    if ret == "dataarray":
+        return xr.DataArray(vals, dims=("freq",), coords={"freq": labels},
+                            name="amp")
+    return xr.Dataset({"amp": (("freq",), vals),
+                       "amp2": (("freq",), vals * 2)},
+                      coords={"freq": labels})
+
+
+def shifted_value(kw, f):
+    return float(models.kw_number(kw, salt=3) % 4096) + f / 1000.0
+
+
+def run_shifted(case):
+    x = xyz()
+    ret, L, step = case["ret"], case["L"], case["step"]
+    ns, ms = case["n"], case["m"]
+    fn = functools.partial(shifted_fn, _xv=(ret, L, step))
+    models.LOG.clear()
+    with under_test(case["entry"]):
+        if case["entry"] == "combo_to_ds":
+            out = x.combo_runner_to_ds(fn, {"n": ns, "m": ms}, None,
+                                       verbosity=0)
+        elif case["entry"] == "runner":
+            out = x.Runner(fn, None).run_combos({"n": ns, "m": ms},
+                                                verbosity=0)
+        else:
+            out = x.case_runner_to_ds(
+                fn, ("n", "m"), [(n_, m_) for n_ in ns for m_ in ms], None,
+                verbosity=0)
+    import xarray as xr
+    if isinstance(out, xr.DataArray):
+        out = out.to_dataset(name="amp")
+    names = ["amp"] if ret == "dataarray" else ["amp", "amp2"]
+    union = sorted({step * n_ + i for n_ in ns for i in range(L)})
+    require(sorted(out["freq"].values.tolist()) == union, "internal-labels",
+            f"freq = {out['freq'].values.tolist()}, the function returned "
+            f"the labels {union} in all")
+    for n_ in ns:
+        own = {step * n_ + i for i in range(L)}
+        for m_ in ms:
+            for f in union:
+                for nm in names:
+                    got = float(out[nm].sel(n=n_, m=m_, freq=f).values)
+                    if f in own:
+                        want = shifted_value({"n": n_, "m": m_}, f) * \
+                            (2 if nm == "amp2" else 1)
+                        require(got == want, "value-at-label",
+                                f"{nm} at n={n_}, m={m_!r}, freq={f} is "
+                                f"{got}; the function returned {want} for "
+                                f"that label")
+                    else:
+                        require(got != got, "phantom-value",
+                                f"{nm} at n={n_}, m={m_!r}, freq={f} is "
+                                f"{got} but the function returned no such "
+                                f"label for n={n_}")
+    return {"nontrivial": len(ns) >= 2 and step > 0,
+            "classes": ["argument-dependent-internal-labels",
+                        f"entry={case['entry']}", f"ret={ret}"]}
+
+
+@st.composite
+def shifted_strategy(draw):
+    return {"ret": draw(st.sampled_from(["dataset", "dataarray"])),
+            "L": draw(st.integers(1, 4)),
+            "step": draw(st.integers(0, 5)),
+            "n": draw(st.lists(st.integers(0, 6), min_size=1, max_size=3,
+                               unique=True)),
+            "m": draw(st.lists(st.sampled_from(["p", "q", "rr"]), min_size=1,
+                               max_size=2, unique=True)),
+            "entry": draw(st.sampled_from(["combo_to_ds", "runner",
+                                           "case_to_ds"]))}
+
+
 PHASES = [
     Phase("labelled", run_case, strategy=strategy,
           examples={"quick": 2400, "thorough": 100000}),
+    Phase("shifted-internal-labels", run_shifted, strategy=shifted_strategy,
+          examples={"quick": 400, "thorough": 8000}),
 ]
